@@ -63,3 +63,14 @@ def run(ctx):
                 (name, profile, s.get("evaluations", 0), len(s["failing"]), len(s.get("direct_failures", []))))
         vlib.decide_absolute(ctx, s, explain="explain_c01",
                              theorem="C01_refill_eq_block, C01_block_djb, C01_block_ietf, C01_block_x")
+    # the portable back end (ppv-lite86 `no_simd`, generic.rs + soft.rs wrappers), both profiles
+    for profile in ("debug", "release"):
+        binary, log = vlib.cargo_build(features=("no_simd",), profile=profile, bin_name="h_chacha")
+        if binary is None:
+            raise vlib.CheckError("harness build failed (no_simd %s): %s" % (profile, log[-2000:]))
+        s = vlib.correspondence(ctx, binary, "c01", ["--count", 7 * 20 if ctx.quick else 7 * 100, "--level", 0] + big,
+                                "portable-backend/%s" % profile)
+        ctx.log("portable/%s: %d cases, %d disagree, %d direct failures" %
+                (profile, s.get("evaluations", 0), len(s["failing"]), len(s.get("direct_failures", []))))
+        vlib.decide_absolute(ctx, s, explain="explain_c01",
+                             theorem="C01_refill_eq_block, C01_block_djb, C01_block_ietf, C01_block_x")
